@@ -583,7 +583,7 @@ func c19GenCase(r *rand.Rand, i int) (*c19Node, string) {
 	case k < 30:
 		return c19RandPrim(r, true), "primitive"
 	case k < 34:
-		t := []int{255, 256, 65535, 65536}[r.Intn(4)] + r.Intn(3) - 1
+		t := []int{255, 256, 255, 256, 255, 256, 65535, 65536}[r.Intn(8)] + r.Intn(3) - 1
 		return c19SizedTree(r, t), "sized"
 	case k < 37:
 		return c19ManyKeys(r), "manykeys"
@@ -763,6 +763,44 @@ func c19CodecCase(ctx *core.Ctx, n *c19Node, class string, p *c19Pending, lean b
 			ctx.Fail("L1", "spec-decoder-disagrees "+sig, "the spec decoder does not read Encode's bytes as the value written", detail(map[string]any{"spec": c19Trunc(ans), "want": c19Trunc(want)}))
 		}
 	})
+	// ---- L1: the streaming Builder, the library's second encoder (field values stay in event
+	// order, only the header is sorted, so offsets are not monotone): same value for both decoders
+	{
+		var bld variant.Builder
+		var bm, bv []byte
+		berr := c19Guard(func() error {
+			v.Write(&bld)
+			var e error
+			bm, bv, e = bld.Finish()
+			bm, bv = bytes.Clone(bm), bytes.Clone(bv)
+			return e
+		})
+		if berr != nil {
+			ctx.Fail("L1", "builder-fails "+sig, "variant.Builder rejects the value: "+berr.Error(), detail(nil))
+		} else {
+			if bytes.Equal(bv, value) && bytes.Equal(bm, meta) {
+				ctx.Hist("codec.builder", "same bytes as Encode")
+			} else {
+				ctx.Hist("codec.builder", "different layout")
+			}
+			bg, err := c19Decode(bm, bv)
+			if err != nil {
+				ctx.Fail("L1", "builder-decode-fails "+sig, "Decode rejects the bytes of variant.Builder: "+err.Error(), detail(map[string]any{"builder_value_hex": c19Trunc(core.Hex(bv))}))
+			} else if t := c19VText(bg, true); t != want {
+				ctx.Fail("L1", "builder-decode-differs "+sig, "Decode(Builder(v)) is not v", detail(map[string]any{"decoded": c19Trunc(t), "want": c19Trunc(want), "builder_value_hex": c19Trunc(core.Hex(bv))}))
+			}
+			if !bytes.Equal(bv, value) || !bytes.Equal(bm, meta) {
+				bmh, bvh := core.Hex(bm), core.Hex(bv)
+				p.add("variant.dec "+bmh+" "+bvh, func(ans string) {
+					// the spec decoder lists fields in header order (sorted by name), as Decode does
+					if ans != "ok "+want {
+						ctx.Fail("L1", "spec-decoder-disagrees-on-builder "+sig, "the spec decoder does not read variant.Builder's bytes as the value written",
+							detail(map[string]any{"spec": c19Trunc(ans), "want": c19Trunc(want), "builder_metadata_hex": c19Trunc(bmh), "builder_value_hex": c19Trunc(bvh)}))
+					}
+				})
+			}
+		}
+	}
 	// ---- L2: Go bytes == mirror bytes
 	p.add("variant.enc "+txt, func(ans string) {
 		if ans != "ok "+core.Hex(meta)+" "+core.Hex(value) {
